@@ -20,6 +20,7 @@ WATCHDOG_S = 30
 _inited = False
 _code = {}
 _base = None
+_base_pid = None
 _count = 0
 
 
@@ -114,8 +115,9 @@ def init(repo=None):
 
 
 def base_dir():
-    global _base
-    if _base is None:
+    global _base, _base_pid
+    if _base is None or _base_pid != os.getpid():
+        _base_pid = os.getpid()
         top = '/dev/shm' if os.path.isdir('/dev/shm') and os.access('/dev/shm', os.W_OK) else \
             os.environ.get('TMPDIR', '/var/tmp')
         _base = os.path.join(top, 'vt-%d-%d' % (os.getppid(), os.getpid()))
@@ -197,7 +199,7 @@ class Sandbox(object):
         self.destroy()
 
     # -----------------------------------------------------------------------------------------
-    def spawn(self, argv, stdin=None, env=None, cwd=None, plan=None, now=None, keep_fds=()):
+    def spawn(self, argv, stdin=None, env=None, cwd=None, plan=None, now=None, close_fds=()):
         """fork the child; returns (pid, files) -- used directly by the scheduler (E5)"""
         spec = self.spec
         self.nrun += 1
@@ -222,6 +224,11 @@ class Sandbox(object):
         code = 70
         try:
             signal.alarm(WATCHDOG_S)
+            for fd in close_fds:
+                try:
+                    os.close(fd)
+                except OSError:
+                    pass
             fin = os.open(files['in'], os.O_RDONLY)
             fout = os.open(files['out'], os.O_WRONLY | os.O_CREAT | os.O_TRUNC, 0o600)
             ferr = os.open(files['err'], os.O_WRONLY | os.O_CREAT | os.O_TRUNC, 0o600)
